@@ -9,6 +9,7 @@ import (
 
 	"verifharness/lib"
 	"verifharness/props/c01"
+	"verifharness/props/c05"
 	"verifharness/props/c06"
 	"verifharness/props/c12"
 	"verifharness/props/c15"
@@ -20,6 +21,7 @@ import (
 
 var table = map[string]func(lib.Opts){
 	"C01": c01.Run,
+	"C05": c05.Run,
 	"C06": c06.Run,
 	"C12": c12.Run,
 	"C15": c15.Run,
